@@ -57,16 +57,21 @@ def split_goal(goal):
 
 
 def _ground_index_terms(exprs, limit=60):
-    """Ground terms that occur as array indices / UF arguments / arithmetic atoms, by sort."""
+    """Ground terms that occur as array indices / UF arguments, by sort; and, under key ('arr', array-sort),
+    the ground index terms used with arrays of that sort (trigger-style candidate selection)."""
     seen = set()
     by_sort = {}
 
-    def add(t):
+    def add(t, arr_sort=None):
         k = (t.sort().name(), t.get_id())
-        if k in seen:
-            return
-        seen.add(k)
-        by_sort.setdefault(t.sort().name(), []).append(t)
+        if k not in seen:
+            seen.add(k)
+            by_sort.setdefault(t.sort().name(), []).append(t)
+        if arr_sort is not None:
+            k2 = ("arr", arr_sort, t.get_id())
+            if k2 not in seen:
+                seen.add(k2)
+                by_sort.setdefault(("arr", arr_sort), []).append(t)
 
     visited = set()
 
@@ -96,11 +101,11 @@ def _ground_index_terms(exprs, limit=60):
             if kind == z3.Z3_OP_SELECT:
                 for idx in ch[1:]:
                     if not has_var(idx):
-                        add(idx)
+                        add(idx, str(ch[0].sort()))
             elif kind == z3.Z3_OP_STORE:
                 for idx in ch[1:-1]:
                     if not has_var(idx):
-                        add(idx)
+                        add(idx, str(ch[0].sort()))
             elif kind == z3.Z3_OP_UNINTERPRETED:
                 if ch:
                     for a in ch:
@@ -119,6 +124,34 @@ def _ground_index_terms(exprs, limit=60):
 
 def _is_bool_connective(e):
     return z3.is_and(e) or z3.is_or(e) or z3.is_not(e) or z3.is_implies(e)
+
+
+def norm_bool(e):
+    """Rewrite boolean ==, ite and xor whose operands contain quantifiers into and/or/implies, so that every
+    quantifier gets a definite polarity."""
+    if not z3.is_bool(e) or not _has_quant(e):
+        return e
+    if z3.is_quantifier(e):
+        return e
+    ch = e.children()
+    if z3.is_eq(e) and z3.is_bool(ch[0]):
+        a, b = norm_bool(ch[0]), norm_bool(ch[1])
+        return z3.And(z3.Implies(a, b), z3.Implies(b, a))
+    if z3.is_app_of(e, z3.Z3_OP_ITE):
+        c, a, b = norm_bool(ch[0]), norm_bool(ch[1]), norm_bool(ch[2])
+        return z3.And(z3.Implies(c, a), z3.Implies(z3.Not(c), b))
+    if z3.is_distinct(e) and len(ch) == 2 and z3.is_bool(ch[0]):
+        a, b = norm_bool(ch[0]), norm_bool(ch[1])
+        return z3.And(z3.Or(a, b), z3.Or(z3.Not(a), z3.Not(b)))
+    if z3.is_and(e):
+        return z3.And(*[norm_bool(c) for c in ch])
+    if z3.is_or(e):
+        return z3.Or(*[norm_bool(c) for c in ch])
+    if z3.is_not(e):
+        return z3.Not(norm_bool(ch[0]))
+    if z3.is_implies(e):
+        return z3.Implies(norm_bool(ch[0]), norm_bool(ch[1]))
+    return e
 
 
 def skolemize(e, pos=True):
@@ -161,6 +194,34 @@ def _has_quant(e, seen=None):
     return False
 
 
+def _var_array_sorts(q):
+    """For each de-Bruijn index of quantifier q: the sorts of the arrays that the variable indexes directly in
+    the body (empty -> no select trigger, fall back to all ground terms of the sort)."""
+    out = {}
+    stack = [(q.body(), 0)]
+    seen = set()
+    while stack:
+        x, depth = stack.pop()
+        key = (x.get_id(), depth)
+        if key in seen:
+            continue
+        seen.add(key)
+        if z3.is_quantifier(x):
+            stack.append((x.body(), depth + x.num_vars()))
+            continue
+        if z3.is_app(x):
+            ch = x.children()
+            if x.decl().kind() == z3.Z3_OP_SELECT:
+                for idx in ch[1:]:
+                    if z3.is_var(idx):
+                        vi = z3.get_var_index(idx) - depth
+                        if vi >= 0:
+                            out.setdefault(vi, set()).add(str(ch[0].sort()))
+            for c in ch:
+                stack.append((c, depth))
+    return out
+
+
 def expand_universals(e, cands, pos=True, cap=200):
     """Replace universal-force quantifiers by the conjunction (disjunction under negation) of their ground
     instances at the candidate terms. Only weakens an assertion -> sound for `unsat`."""
@@ -171,7 +232,21 @@ def expand_universals(e, cands, pos=True, cap=200):
         if not universal_force:
             return e
         n = e.num_vars()
-        pools = [cands.get(e.var_sort(i).name(), []) for i in range(n)]
+        pools = []
+        trig = _var_array_sorts(e)
+        for i in range(n):
+            srts = trig.get(n - 1 - i)
+            if srts:
+                pool = []
+                ids = set()
+                for a_s in srts:
+                    for t in cands.get(("arr", a_s), []):
+                        if t.get_id() not in ids and t.sort() == e.var_sort(i):
+                            ids.add(t.get_id())
+                            pool.append(t)
+                pools.append(pool)
+            else:
+                pools.append(cands.get(e.var_sort(i).name(), []))
         if any(not p for p in pools):
             return z3.BoolVal(True) if pos else z3.BoolVal(False)
         combos = [[]]
@@ -182,6 +257,7 @@ def expand_universals(e, cands, pos=True, cap=200):
         insts = []
         for combo in combos:
             body = z3.substitute_vars(e.body(), *reversed(combo))
+            body = skolemize(norm_bool(body), pos)
             insts.append(expand_universals(body, cands, pos, cap))
         if pos:
             return z3.And(*insts) if insts else z3.BoolVal(True)
@@ -202,7 +278,7 @@ def expand_universals(e, cands, pos=True, cap=200):
 
 def instantiate(assertions, rounds=2):
     """assertions (hypotheses + negated goal) -> (instantiated assertions, skolemised-only assertions, had_quant)"""
-    sk = [skolemize(a, True) for a in assertions]
+    sk = [skolemize(norm_bool(a), True) for a in assertions]
     if not any(_has_quant(a) for a in sk):
         return sk, None
     cur = sk
